@@ -1,0 +1,22 @@
+//go:build verif
+
+package server
+
+import "sync/atomic"
+
+var verifHook atomic.Pointer[func(site, key string)]
+
+// SetVerifHook installs f to be called at each scheduling point; nil removes it.
+func SetVerifHook(f func(site, key string)) {
+	if f == nil {
+		verifHook.Store(nil)
+		return
+	}
+	verifHook.Store(&f)
+}
+
+func verifPointS(site, key string) {
+	if f := verifHook.Load(); f != nil {
+		(*f)(site, key)
+	}
+}
